@@ -69,7 +69,7 @@ struct Slot { uintptr_t p; size_t n; };
 template<int N> struct LiveTable {
   Slot s[N]; int used = 0; bool overflow = false;
   void add(uintptr_t p, size_t n) { for (int i = 0; i < N; i++) if (!s[i].p) { s[i].p = p; s[i].n = n; used++; return; } overflow = true; }
-  bool del(uintptr_t p) { for (int i = 0; i < N; i++) if (s[i].p == p) { s[i].p = 0; used--; return true; } return false; }
+  bool del(uintptr_t p) { if (!p) return false;   /* (munmap(NULL, n) succeeds: it must not "free" an empty slot) */ for (int i = 0; i < N; i++) if (s[i].p == p) { s[i].p = 0; used--; return true; } return false; }
   size_t bytes() const { size_t b = 0; for (int i = 0; i < N; i++) if (s[i].p) b += s[i].n; return b; }
 };
 static LiveTable<2048> g_heap;
